@@ -32,7 +32,18 @@ def update_body(rng, t):
             continue        # stay deterministic and inside the slicer's guard
         if rng.chance(1, 2):
             a[f] = rng.choice([2, 7, 50, 400])
-    return json.dumps({"attributes": a})
+    body = {"attributes": a}
+    # an update sets attributes and toxicity; whatever else a client posts back with them (it read the toxic, edited it and sent the whole
+    # object) must change neither what is listed nor what is in effect
+    if rng.chance(1, 3):
+        extra = rng.choice(["stream", "type", "name", "all"])
+        if extra in ("stream", "all"):
+            body["stream"] = rng.choice(["upstream", "downstream"])
+        if extra in ("type", "all"):
+            body["type"] = rng.choice(["latency", "timeout", "bandwidth", "noop"])
+        if extra in ("name", "all"):
+            body["name"] = rng.choice(["renamed", "t0", "t1"])
+    return json.dumps(body)
 
 
 def gen_cases(ctx, rng):
@@ -89,7 +100,7 @@ def gen_cases(ctx, rng):
         probe = [{"at": tend + 6000 * L.MS, "n": 700}, {"at": tend + 6050 * L.MS, "n": 5}, {"at": tend + 30000 * L.MS, "close": True}]
         cases.append({"dir": rng.choice(["upstream", "downstream"]), "chain": chain, "src": src0, "srcs": [src0, probe, probe],
                       "links": 3, "link_start": [0, 0, tend + 10 * L.MS], "ops": ops, "horizon": tend + 120000 * L.MS, "seed": i,
-                      "expect_chain": live})
+                      "expect_chain": live, "expect_types": {n: specs[n]["type"] for n in live}})
     # a connection whose sender has already closed but whose data (or close) is still held by a delaying toxic is still a connection:
     # removing / neutralising that toxic must take effect on it at once
     stats["draining_connections"] = 0
@@ -160,6 +171,12 @@ def oracle(case, res):
         names = [c.split(":", 1)[1] for c in chain[1:]]
         if names != case["expect_chain"]:
             return "listed chain %s, expected %s" % (names, case["expect_chain"])
+    if res.get("listing") is not None and case.get("expect_types") is not None:
+        lst = res["listing"] or []
+        got = [(t.get("name"), t.get("type"), t.get("stream")) for t in lst]
+        want = [(n, case["expect_types"][n], case["dir"]) for n in case["expect_chain"]]
+        if got != want:
+            return "the API lists %s, the history leaves %s (name, type, stream)" % (got, want)
     if case.get("drain"):
         R = case["drain"]["at"]
         sent = sum(e.get("n", 0) for e in case["src"])
